@@ -128,6 +128,10 @@ theorem C18_container (c0 : Container α) (hwf0 : c0.WF) (hv0 : (workShape c0).V
 /-- the result dtype is the dtype of `x0` -/
 theorem C18_dtype (d : DT) : resultDType d = d := by cases d <;> rfl
 
+/-- integer and boolean starting points are outside: exactly the floating and complex dtypes are taken -/
+theorem C18_start_dtypes (d : DT) : d.isInexact = true ↔ d = .f32 ∨ d = .f64 ∨ d = .c64 ∨ d = .c128 := by
+  cases d <;> simp [DT.isInexact]
+
 /-- a vector of the wrong length is rejected, never silently re-cut -/
 theorem C18_reject_length (v : List α) (sh : Shape) (hv : sh.Valid) (h : v.length ≠ total sh) :
     unravel v sh = none :=
